@@ -160,7 +160,18 @@ def decide_all(gate, part):
     return True
 
 
-DECIDERS = {'q_ge': decide_q_ge, 'q_lt': decide_q_lt, 'all': decide_all}
+def decide_q_ge_none(gate, part):
+    if part.quality >= 0.5:
+        return True          # "no" is answered by falling off the end (None), as user code often does
+
+
+def decide_q_lt_none(gate, part):
+    if part.quality < 0.5:
+        return True
+
+
+DECIDERS = {'q_ge': decide_q_ge, 'q_lt': decide_q_lt, 'all': decide_all, 'q_ge_none': decide_q_ge_none,
+            'q_lt_none': decide_q_lt_none}
 
 
 class GiveWrap:
@@ -362,6 +373,7 @@ class HCms(Cms):
 
 class OpAction:
     '''Injected environment operation, delivered as a real event.'''
+    _canon_skip = ('world',)      # the world is the root of every digest; the action is identified by its index
 
     def __init__(self, world, idx):
         self.world = world
@@ -403,6 +415,7 @@ class LineWorld:
         self.last_tie_size = 0
         self.started = False
         self.steps = 0
+        self.instant_steps = 0       # events executed without the clock advancing (livelock guard, C03 termination)
         self.hub = Hub()
         self.monitors = list(monitors)
         self.id_counter = 0
@@ -700,6 +713,9 @@ class LineWorld:
                 self.facts.append('run_resumed')
                 for m in self.monitors:
                     m.resumed(self)
+                if not env._events or self._head_for_ops() is None or self._head_for_ops().time > env.now:
+                    for m in self.monitors:
+                        m.quiescent(self)       # the clock is about to advance right after the new run starts
                 return
             if label[0] == 'xop':
                 if not self.between:
@@ -776,6 +792,12 @@ class LineWorld:
             for m in self.monitors:
                 m.before(self, label, ev)
             self.steps += 1
+            if ev.time > env.now:
+                self.instant_steps = 0
+            self.instant_steps += 1
+            if self.instant_steps > self.spec.get('instant_cap', 300):
+                raise Violation('termination', f'{self.instant_steps} events executed at t={env.now} without the clock advancing: '
+                                               f'the run does not return (last event {canon.event_key(ev)[3]})')
             if self.dispatched is not None:
                 f = ev.action
                 self.dispatched.append((ev.time, ev.asset_id,
@@ -858,6 +880,9 @@ class LineWorld:
                 hub.tlog.append(('created', d['name'], d['kind'], env.now))
                 for m in self.monitors:
                     m.created(self, d, env.now)
+        elif k == 'addvalue':
+            self.dev[op[1]].add_value('booking', op[2])
+            hub.tlog.append(('addvalue', op[1], op[2]))
         elif k == 'bump':
             o = self.dev[op[1]]
             o.x[0] += 1           # in place: a sensor that stored a reference instead of a copy is exposed
